@@ -220,6 +220,12 @@ Lemma Write_early_return_pinned :
   In "exists && !(size == 0 && hash == emptySha256)" conds_server_Write /\
   forall present h sz, early_return present h sz = contains present h sz && negb ((sz =? 0) && String.eqb h Keys.emptySha256).
 Proof. split; [cbn; tauto|reflexivity]. Qed.
+(* presence is asked for the DECLARED size, in Write and in QueryWriteStatus (the model's [contains
+   present hash size] is about a blob with this hash and this size) *)
+Lemma Contains_args_pinned :
+  stmts_server_Write_contains = ["if firstIteration"; "exists, _ := s.cache.Contains(srv.Context(), cache.CAS, hash, size)"] /\
+  stmts_server_QueryWriteStatus_contains = ["exists, _ := s.cache.Contains(ctx, cache.CAS, hash, size)"].
+Proof. split; reflexivity. Qed.
 Lemma Write_committed_pinned :
   filter (fun s => starts_with "resp.CommittedSize" s) stmts_server_Write_committed =
     ["resp.CommittedSize = size"; "resp.CommittedSize = -1"; "resp.CommittedSize = req.WriteOffset";
